@@ -104,7 +104,7 @@ def exc_fail(exc: BaseException, op: str = "") -> Fail:
 # results returned by the last few library calls of the current case, with a private copy of their arrays: a later call must
 # not change them (results that share a scratch buffer, a cache entry handed out without a copy, ...). Checked in call().
 _RECENT: list = []
-_RECENT_MAX = 6
+_RECENT_MAX = 48
 _CUR = {"case": None, "seq": None}  # the case being run; "seq" is set when a result of an EARLIER case was changed by this one
 
 
